@@ -870,6 +870,234 @@ print a(1)
 print b(1)
 print a(1)
 """),
+    # ---- same-named bindings: locals that shadow a captured name, callers holding the name, re-assigned closures
+    ("shadow_local_then_closures_over_the_local", """
+rate = 10
+make_quote = fn() -> (fn() -> int) {
+  rate = rate + 5
+  return fn() -> int {
+    return rate
+  }
+}
+quote = make_quote()
+print quote()
+rate = 40
+print quote()
+make_counter = fn() -> (fn() -> int) {
+  rate = rate * 0
+  return fn() -> int {
+    modify rate = rate + 1
+    return rate
+  }
+}
+c1 = make_counter()
+c2 = make_counter()
+print c1()
+print c1()
+print c2()
+print rate
+"""),
+    ("shadow_local_in_middle_function_then_inner_closures", """
+mk = fn() -> (fn() -> [fn() -> int, fn(int) -> int]) {
+  fv = 1
+  return fn() -> [fn() -> int, fn(int) -> int] {
+    fv = fv + 10
+    return [fn() -> int {
+      return fv
+    }, fn(d: int) -> int {
+      modify fv = fv + d
+      return fv
+    }]
+  }
+}
+m = mk()
+[r1, w1] = m()
+[r2, w2] = m()
+print w1(5)
+print r1()
+print r2()
+m2 = mk()
+[r3, w3] = m2()
+print r3()
+"""),
+    ("shadow_in_block_then_closure_over_block_local", """
+x = 1
+mk = fn(p: int) -> (fn() -> int) {
+  hold: fn() -> int = fn() -> int {
+    return x
+  }
+  if p > 0 {
+    x = p * 100
+    hold = fn() -> int {
+      modify x = x + 1
+      return x
+    }
+  }
+  return hold
+}
+a = mk(2)
+b = mk(0)
+print a()
+print a()
+print b()
+x = 7
+print b()
+print a()
+print x
+"""),
+    ("caller_parameter_block_local_and_loop_counter_named_like_captured", """
+gv = 5
+rd = fn() -> int {
+  return gv
+}
+wr = fn(d: int) -> int {
+  modify gv = gv + d
+  return gv
+}
+apP = fn(fb: fn(int) -> int, gv: int) -> int {
+  return fb(gv) + gv
+}
+apB = fn(fa: fn() -> int) -> int {
+  r = 0
+  from 0 to 2, gv {
+    r = r + fa() + gv
+  }
+  if r >= 0 {
+    gv = 50
+    r = r + fa() * 3 + gv
+  }
+  return r
+}
+apT = fn(fc: fn() -> int) -> int {
+  gv = 999
+  inner = fn() -> int {
+    return fc() + gv
+  }
+  return inner()
+}
+print apP(wr, 100)
+print gv
+print apB(rd)
+print apT(rd)
+print gv
+"""),
+    ("callers_local_then_closure_created_by_callee", """
+x = 5
+mk = fn() -> (fn() -> int) {
+  return fn() -> int {
+    return x
+  }
+}
+g = fn() -> (fn() -> int) {
+  x = 100
+  return mk()
+}
+c = g()
+print c()
+x = 6
+print c()
+"""),
+    ("rebind_closure_variable_from_fresh_factory_call", """
+make_counter = fn() -> (fn() -> int) {
+  count = 0
+  return fn() -> int {
+    modify count = count + 1
+    return count
+  }
+}
+counter = make_counter()
+print counter()
+print counter()
+other = make_counter()
+print other()
+counter = make_counter()
+print counter()
+print counter()
+counter = other
+print counter()
+make_adder = fn(n: int) -> (fn(int) -> int) {
+  return fn(x: int) -> int {
+    return x + n
+  }
+}
+add = make_adder(1)
+print add(10)
+add = make_adder(100)
+print add(10)
+"""),
+    ("rebind_closure_variable_inside_function_and_in_loop", """
+make_adder = fn(n: int) -> (fn(int) -> int) {
+  return fn(x: int) -> int {
+    return x + n
+  }
+}
+run = fn() -> int {
+  stp = make_adder(2)
+  first = stp(0)
+  stp = make_adder(30)
+  return first + stp(0)
+}
+print run()
+loop = fn() -> int {
+  acc = 0
+  cur = make_adder(0)
+  from 1 to 4, i {
+    cur = make_adder(i * 10)
+    acc = acc + cur(1)
+  }
+  return acc
+}
+print loop()
+"""),
+    ("reassign_with_equal_looking_values", """
+a = 5
+ra = fn() -> int {
+  return a
+}
+a = 5
+print ra()
+a = 2 + 3
+print ra()
+l: [int...] = [1, 2]
+n: [int...] = [1, 2]
+rl = fn() -> int {
+  return l.len()
+}
+l = n
+n.push(3)
+print l
+print rl()
+s = "ab"
+t = "a" + "b"
+rs = fn() -> str {
+  return s
+}
+s = t
+print rs()
+"""),
+    # ---- a method's free variable named like a field of its class resolves to the FIELD (the capture map of a
+    #      method is built inside the class-body frame, whose variables are the fields)
+    ("method_free_variable_named_like_field", """
+x = 100
+class M {
+  x: int
+  constructor(self, a: int) {
+    self.x = a
+  }
+  fn g(self) -> int {
+    return x
+  }
+  fn h(self) -> int {
+    modify x = x + 1
+    return x
+  }
+}
+m = M(7)
+print m.g()
+print m.h()
+print x
+print m.x
+"""),
     # ---- the known defect (run-time name search walks the call stack before the capture map): two pinned cases
     ("caller_local_shadows_captured_read", """
 x = 5
@@ -1113,7 +1341,7 @@ def run(ctx):
     avoid = tuple(sorted(set(r for r, sig in PINS.items() if sig in ctx.known) | FORCE_AVOID |
                          ({"caller_local_shadow"} if dynamic_lookup_defect_listed() else set())))
     items = [("cat", c) for c in CATALOGUE]
-    nrand = ctx.n(1500, 30000)
+    nrand = ctx.n(4000, 30000)
     base = ctx.rng("histories").randrange(1 << 40)
     items += [("rand", (base + i, avoid)) for i in range(nrand)]
     results = core.pmap(work, items, chunksize=8)
@@ -1220,7 +1448,11 @@ def run(ctx):
                 "(module variables, module/block/loop closures, factories returning packs / single closures / "
                 "closure-making closures / growable lists, method factories, higher-order helpers) each with a history of "
                 "4-12 steps (owner assign/op-assign, call reader/writer/shadower/op-assigner, call via helper, new factory "
-                "instance, is_closure); after every step all module variables and all pure readers are printed. "
+                "instance, is_closure, re-assign an existing closure variable from another closure / a fresh factory call / inside a "
+                "function, owner re-assignment with an equal int or an equal-but-distinct list); unless the rule caller_local_shadow "
+                "is in force the worlds use same-named bindings on purpose (factory locals that shadow a captured name before "
+                "closures are created over them, middle-level shadows, helper locals / parameters / loop counters / block locals "
+                "named like the callee's captured variable); after every step all module variables and all pure readers are printed. "
                 "evaluations = executions of the real binary compared line-by-line with the cell model. non-trivial = the "
                 "model executed at least one write through a closure (modify / captured op-assign), one captured read and two "
                 "closure calls; distinct = distinct source text (catalogue: case id)." % (len(CATALOGUE), nrand))
